@@ -285,7 +285,12 @@ func (env *Env) lookupIdent(name string) (Val, bool) {
 		return v, true
 	}
 	if env.fn != nil && env.ex != nil {
-		if v, ok := env.ex.lookupLocal(env, name); ok {
+		if strings.HasPrefix(name, "#") {
+			// #X: current value of source variable X even if X is a parameter that the body reassigns
+			if v, ok := env.ex.lookupLocalX(env, name[1:], true); ok {
+				return v, true
+			}
+		} else if v, ok := env.ex.lookupLocal(env, name); ok {
 			return v, true
 		}
 	}
